@@ -1161,7 +1161,9 @@ class AstEval:
             local_var = None
             if arg.name in self.sym_table and isinstance(self.sym_table[arg.name], EvalLocalVar):
                 local_var = self.sym_table[arg.name]
-            code = compile(ast.Module(body=[arg], type_ignores=[]), filename=self.filename, mode="exec")
+            # the file the source comes from (self.filename is only the context's name while a function runs)
+            filename = (self.global_ctx.get_file_path() if self.global_ctx else None) or self.filename
+            code = compile(ast.Module(body=[arg], type_ignores=[]), filename=filename, mode="exec")
             exec(code, self.global_sym_table, self.sym_table)  # pylint: disable=exec-used
 
             func = self.sym_table[arg.name]
